@@ -85,7 +85,15 @@ def floors(tier):
 _guard = None
 
 
-def _guard_pre(tr):
+def _guard_pre(tr, mname, a, k):
+    """Token: for operate(<expression string>) the '#'-names listed before the
+    call (a user may legitimately own features named '#...'; only names that
+    the evaluation itself leaves behind are temporaries)."""
+    if mname == "operate" and a and isinstance(a[0], str):
+        try:
+            return {"expr": True, "hash_before": {n for n in tr.getListAnalyticalFeatures() if str(n).startswith("#")}}
+        except Exception:
+            return {"expr": True, "hash_before": set()}
     return None
 
 
@@ -96,8 +104,9 @@ def _guard_post(tr, tok, mname, raised):
         for o in tr.getObsList():
             if len(o.features) != n:
                 return "observation carries %d values for %d listed features" % (len(o.features), n)
-        if mname == "operate" and raised is None:
-            if any(str(k).startswith("#") for k in names):
+        if tok and tok.get("expr") and raised is None:
+            left = [k for k in names if str(k).startswith("#") and k not in tok["hash_before"]]
+            if left:
                 return "evaluator temporary still listed: %r" % (names,)
     except Exception as e:  # pragma: no cover
         return "guard could not read the table: %r" % (e,)
